@@ -345,7 +345,7 @@ def compare_model(ctx, case, res, ans):
 
 
 def run(ctx):
-    count = ctx.n(250, 4000)
+    count = ctx.n(170, 4000)
     cases = gen_cases(ctx, count)
     chunk = 400
     n_amb = 0
